@@ -221,8 +221,9 @@ def BATCH(K=0, horizon=6, pattern=(2, None, 3), size=2, cap=None, sink_cycle=0, 
 
 
 def RES(K=0, horizon=6, r=1, q=1, ops=None):
-    devs = [src('S', 1), proc('M1', ['S'], 2, resources={'r': 1}),
-            proc('M2', ['S'], 2, resources={'r': 1, 'q': 1}), sink('K', ['M1', 'M2'])]
+    # (both also "require" zero units of a resource that was never defined: a legal entry that must change nothing)
+    devs = [src('S', 1), proc('M1', ['S'], 2, resources={'r': 1, 'zz': 0}),
+            proc('M2', ['S'], 2, resources={'zz': 0, 'r': 1, 'q': 1}), sink('K', ['M1', 'M2'])]
     if ops is None:
         ops = [('addres', 'r', -1), ('addres', 'r', 1), ('addres', 'q', -1), ('addres', 'q', 1),
                ('fail', 'M1', 0), ('restore', 'M1')]
@@ -240,6 +241,16 @@ def RES_WINDOW(K=0, horizon=7, ops=None):
     s = spec(f'RESWINDOW[K{K}]', devs, horizon, ops, K, pools={'r': 1})
     s['script'] = [[3, 6.5, ['shutdown', 'M1']], [4.5, 2, ['restore', 'M1']]]
     return s
+
+
+def RES_FRAC(K=0, horizon=5, ops=None):
+    '''Fractional requirements (half an operator): M1 needs 0.5, M2 0.75 of a pool of 1 -- they exclude each other, two
+    M1-like machines would not.'''
+    devs = [src('S', 1), proc('M1', ['S'], 2, resources={'r': 0.5}), proc('M2', ['S'], 1, resources={'r': 0.75}),
+            proc('M3', ['S'], 2, resources={'r': 0.5}), sink('K', ['M1', 'M2', 'M3'])]
+    if ops is None:
+        ops = [('addres', 'r', -0.25), ('addres', 'r', 0.25), ('fail', 'M1', 0), ('restore', 'M1')]
+    return spec(f'RESFRAC[K{K}]', devs, horizon, ops, K, pools={'r': 1})
 
 
 def RES_SER(K=0, horizon=6, r=1, ops=None):
